@@ -2,6 +2,7 @@ import PycModel.Spec.Stmt
 import PycModel.Properties.Tables
 import PycModel.Proofs.SwitchRefine
 import PycModel.Proofs.StmtSkel
+import PycModel.Proofs.TransUnit
 /-!
 # C05 — statement ASTs mirror C's statement nesting and source order
 
@@ -211,5 +212,27 @@ example : ∃ s',
   obtain ⟨s', hr, hs', _⟩ := parse_stmt st hwf _ [] (by simpa [st, S.flat, X.flat, oflat] using hs)
     (by intro _ k v r h; cases h) 300 (by decide)
   exact ⟨s', hr, _, hs'⟩
+
+open PycModel.View PycModel.DeclParse PycModel.TransUnit in
+/-- **Declarations and statements of a function body appear in source order.** For every body
+`{ item ... item }` whose items are declarations (of `C03.declarations_parse_as_the_grammar_says`)
+and statements (of `statements_nest_as_the_grammar_says`) in any order and number,
+`_parse_compound_statement` returns the `Compound` whose block items are the items' ASTs
+concatenated in source order (a declaration contributes one `Decl` per declared name, a statement
+its tree), and consumes exactly the tokens of the body. -/
+theorem block_items_in_source_order {env : Env} (l : List Item) (hw : ∀ it ∈ l, WFItem it)
+    (hty : ∀ x ∈ itemsNames l, env.ty x = false) (s : PState) (rest : List Tk)
+    (hs : SeesT env s (bodyFlat l ++ rest)) (F : Nat) (hF : itemsFuel l + 2 ≤ F) :
+    ∃ s', run F .compoundStatement s = .ok (bodyVal s.idx l) s' ∧ SeesT env s' rest ∧
+      s'.idx = s.idx + itemsNtoks l + 2 :=
+  compound_ok l hw hty s rest hs F hF
+
+open PycModel.TransUnit in
+/-- the block items are the concatenation of the items' values, in order -/
+theorem block_items_concat (n : Nat) (a b : List Item) :
+    itemsVals n (a ++ b) = itemsVals n a ++ itemsVals (n + itemsNtoks a) b := by
+  induction a generalizing n with
+  | nil => simp [itemsVals, itemsNtoks]
+  | cons it r ih => simp [itemsVals, itemsNtoks, ih, Nat.add_assoc]
 
 end PycModel.C05
